@@ -153,6 +153,11 @@ PARSE_MAPPINGS = [
     [("k1", ["v1", "v2"]), ("k2", ["v3"]), ("k3", [])],
     [("k1", ["v1"]), ("k2", ["v2", "v3"])],
 ]
+# values that contain percent-escapes of structural characters, written literally ("lit:" marks literal text): in a gff3
+# dialect each comes back as ONE decoded value (decoding happens per value, after the split); elsewhere unchanged
+PARSE_MAPPINGS_ESCAPES = [
+    [("k1", ["lit:x%2Cy", "lit:p+q"]), ("k2", ["lit:a%3Bb%3Dc"])],
+]
 # quoted values may contain blanks (runs of them): they come back unchanged
 PARSE_MAPPINGS_QUOTED = [
     [("k1", ["w1  w2"]), ("k2", ["v3 w3"])],
@@ -167,6 +172,8 @@ def template_astr(cfg, mapping_):
     for t in spec_tokens(cfg, mapping_):
         if isinstance(t, str):
             parts.append(t)
+        elif t[1].startswith("lit:"):
+            parts.append(t[1][4:])
         elif t[0] == "enc":
             parts.append(Sym("enc(%s)" % t[1], "str", True))
         elif " " in t[1] or "=" in t[1]:
@@ -180,8 +187,15 @@ def template_astr(cfg, mapping_):
     return AStr(parts)
 
 
-def value_name(v):
-    """How names_of renders the value named v."""
+def _percent_decode(text):
+    import re as _re
+    return _re.sub(r"%([0-9A-Fa-f]{2})", lambda m: chr(int(m.group(1), 16)), text)
+
+
+def value_name(v, decoded=False):
+    """How names_of renders the value named v (decoded: the parser is expected to percent-decode it)."""
+    if v.startswith("lit:"):
+        return _percent_decode(v[4:]) if decoded else v[4:]
     if " " not in v and "=" not in v:
         return v
     import re as _re
@@ -194,7 +208,7 @@ def _unquote_summary(interp, pos, kw, node):
     interp.trace.events.append(("unquote", v, node))
     if name is None:
         if isinstance(v, str):
-            return v
+            return _percent_decode(v)
         if isinstance(v, AStr):
             # composite text: decode hole by hole, literal text is free of '%' in these templates
             out = []
@@ -210,9 +224,9 @@ def _unquote_summary(interp, pos, kw, node):
     return Sym("dec(%s)" % name, "str", True)
 
 
-def parse_run(ctx, func, text, dialect, pattern):
+def parse_run(ctx, func, text, dialect, pattern, ignore=False):
     from .absint import RegexVal, TypeVal
-    ov = {("constants", "ignore_url_escape_characters"): False,
+    ov = {("constants", "ignore_url_escape_characters"): ignore,
           ("feature", "dict_class"): TypeVal("dict"), ("attributes", "dict_class"): TypeVal("dict"), ("parser", "dict_class"): TypeVal("dict")}
     if pattern is not None:
         ov[("parser", pattern[0])] = RegexVal(pattern[1])
